@@ -411,7 +411,17 @@ class C18:
                 for _ in range(rng.randint(1, 3)):
                     noise.append([rng.randint(0, len(rows)), rng.choice([[], ["#", "1", "2", "99"], ["#"], ["1", "2"], ["1", "2", "1", "5", "77"], ["1", "2", "1", "55", "7", "8"]] if kind == 1 else
                                                                         [[], ["#", "1", "2", "99"], ["#"], ["1", "2"], ["7"]])])
-            yield {"kind": "keys", "rk": kind, "cls": cls, "rows": rows, "noise": noise, "src": "rand-keys"}
+            # the same instant spelled in several ways ("7", "07", "+7"): the ranks are those of the converted values
+            respell = {}
+            if rng.random() < 0.5:
+                for t in set(spread.values()):
+                    if rng.random() < 0.5:
+                        respell[t] = rng.choice(["0%d" % t, "+%d" % t, "00%d" % t]) if t >= 0 else "-0%d" % -t
+            # a timestamp that does not convert, in a row the parser accepts: TypeError (from read_ids or the parser)
+            bad = None
+            if rng.random() < 0.06:
+                bad = [rng.randint(0, len(rows)), (["1", "2", "x7"] if kind == 0 else ["1", "2", "1", "x7"])]
+            yield {"kind": "keys", "rk": kind, "cls": cls, "rows": rows, "noise": noise, "respell": respell, "badrow": bad, "src": "rand-keys"}
 
     @staticmethod
     def lines(case):
@@ -432,7 +442,17 @@ class C18:
             return L
         rows = case["rows"]
         frows = [list(map(str, r)) for r in rows]
-        for pos, nr in sorted(case.get("noise", []), key=lambda x: -x[0]):
+        rs = case.get("respell") or {}
+        if rs:
+            flip = 0
+            for fr, r in zip(frows, rows):
+                for j in ([2, 3] if case["rk"] == 0 else [3]):
+                    if j < len(r) and r[j] in rs:
+                        flip += 1
+                        if flip % 2:            # every other occurrence, so that both spellings appear in one file
+                            fr[j] = rs[r[j]]
+        ins = list(case.get("noise", [])) + ([case["badrow"]] if case.get("badrow") else [])
+        for pos, nr in sorted(ins, key=lambda x: -x[0]):
             frows.insert(pos, nr)
         flat = " ".join(("%d %s" % (len(r), " ".join(r))).rstrip() for r in frows)
         L = [("rkeys %d 0 %d %d %s" % (case["rk"], case["cls"], len(frows), flat)).rstrip(), "dump 0"]
@@ -466,6 +486,8 @@ class C18:
                 return [F("C18.noise_raised", text=case["text"], delim=case["delim"], got=r)]
             return [] if d0 == d1 else [F("C18.noise", text=case["text"], delim=case["delim"], noisy=d0, clean=d1)]
         r, d0, r1, d1 = outs
+        if case.get("badrow"):
+            return [] if r == "E:TypeError" else [F("C18.keys_conversion", rows=case["rows"], bad=case["badrow"], expected="E:TypeError", got=r)]
         if r1 != "ok":
             return []
         if r != "ok":
